@@ -24,7 +24,7 @@ def run(ctx):
     res2 = vlib.Results()
     nsh2 = 48
     levels = "L1,L4,L6"
-    args = [["--levels", levels, "--tier", tier, "--targets", "avx,sse", "--classes", "float", "--corpus", c01.corpus_arg(),
+    args = [["--levels", levels, "--tier", tier, "--targets", "avx,sse", "--classes", "float", "--rounding", 1, "--corpus", c01.corpus_arg(),
              "--shard", i, "--nshards", nsh2, "--deadline", int(deadline)] for i in range(nsh2)]
     vlib.run_shards(xprog, args, env, timeout=deadline * 1.3 + 60, res=res2, label="xprog-float")
     for v in res2.viol:
